@@ -24,14 +24,26 @@ class InjectedFault(Exception):
     pass
 
 
+class PromotedWarning(RuntimeWarning):
+    pass
+
+
+def _warn(faults, msg, cat):
+    before = faults.fired
+    try:
+        faults.site("warn")
+    except InjectedFault:
+        raise PromotedWarning(str(msg)[:80])
+
+
 class Faults:
     def __init__(self, ctx, K):
-        self.ctx, self.n, self.fired = ctx, 0, None
+        self.ctx, self.n, self.fired, self.paused = ctx, 0, None, False
         self.at = core.Int("fault_at")
         ctx.assume(s_and(self.at >= 0, self.at <= K))
 
     def site(self, name):
-        if self.fired is not None:
+        if self.fired is not None or self.paused:
             return
         self.n += 1
         if bool(self.at == self.n):
@@ -62,7 +74,7 @@ def replay(r):
     from tangermeme.predict import predict
     A, L = r["A"], r["L"]
     model = dl.real_model(r.get("arch", "dense1"), A, L)
-    if r.get("shared_act") or r.get("bn"):
+    if r.get("shared_act") or r.get("bn") or r.get("lazy_cache"):
         base = model
 
         class Wrap(torch.nn.Module):
@@ -77,6 +89,10 @@ def replay(r):
             def forward(self, X, *a):
                 if r.get("bn"):
                     X = self.bn(X)
+                if r.get("lazy_cache"):
+                    if getattr(self, "_pos", None) is None:
+                        self._pos = torch.ones(1, A, L, dtype=X.dtype)
+                    X = X * self._pos
                 return self.inner(X)
         model = Wrap()
         model.train(bool(r.get("starts_in_training_mode", True)))
@@ -90,6 +106,11 @@ def replay(r):
     model.eval()
     y0, g0 = beh()
     model.train(was_training)
+    if r.get("lazy_cache"):
+        model._pos = None
+    import copy
+    import warnings
+    fresh = copy.deepcopy(model)
     b0 = {k: v.clone() for k, v in model.state_dict().items()}
     p0 = [p.detach().clone() for p in model.parameters()]
     X = C.real_onehot(r.get("x") or [[i % A for i in range(L)], [(i + 1) % A for i in range(L)]], A).double()
@@ -111,22 +132,45 @@ def replay(r):
             if fcount["n"] == at:
                 raise Boom("forward failed")
         h = model.register_forward_pre_hook(pre)
+    raised = None
     try:
         if r["entry"] == "deep_lift_shap":
             kw = dict(references=refgen, n_shuffles=2, batch_size=r.get("batch_size", 2), device="cpu", random_state=0, target=r.get("target", 0))
+            if r.get("warn_as_error"):
+                kw["warning_threshold"] = -1.0
+            if r.get("history_ops"):
+                act_cls = [type(m_) for m_ in model.modules() if isinstance(m_, (torch.nn.Tanh, torch.nn.ReLU, torch.nn.GELU, torch.nn.Sigmoid, torch.nn.Softplus))][0]
+                kw["additional_nonlinear_ops"] = {act_cls: (lambda mod, gi, go: gi)}
             if site == "invalid_input":
                 X[0, :, 0] = 0
                 from tangermeme.ersatz import dinucleotide_shuffle
                 kw["references"] = dinucleotide_shuffle
             if site == "target":
                 kw["target"] = 99
-            deep_lift_shap(model, X, **kw)
+            with warnings.catch_warnings():
+                warnings.simplefilter("error" if r.get("warn_as_error") else "ignore")
+                deep_lift_shap(model, X, **kw)
         else:
             predict(model, X, device="cpu")
     except Exception as e:
-        pass
+        raised = e
     if site == "forward":
         h.remove()
+    if raised is not None and site is None and not r.get("warn_as_error"):
+        return True, "%s raised %s: %s although nothing failed in its environment" % (r["entry"], type(raised).__name__, raised)
+    if r.get("history_ops"):
+        calls["n"] = -10 ** 6
+        kw2 = dict(references=refgen, n_shuffles=2, batch_size=r.get("batch_size", 2), device="cpu", random_state=0, target=0)
+        with warnings.catch_warnings():
+            warnings.simplefilter("ignore")
+            try:
+                a_shared = deep_lift_shap(model, X, **kw2)
+                a_fresh = deep_lift_shap(fresh, X, **kw2)
+            except Exception as e:
+                return True, "second call raised %s: %s" % (type(e).__name__, e)
+        if not torch.equal(a_shared, a_fresh):
+            return True, "after a first call with additional_nonlinear_ops (%s), a plain call on the shared model differs from the same call on a fresh copy (max diff %.3g)" % (
+                "raised %s" % type(raised).__name__ if raised is not None else "returned", float((a_shared - a_fresh).abs().max()))
     if r.get("bn"):
         b1 = {k: v.clone() for k, v in model.state_dict().items()}
         if any(not torch.equal(b0[k], b1[k]) for k in b0):
@@ -135,7 +179,10 @@ def replay(r):
     if left:
         return True, "%d hooks left registered on the model after the call (site=%s, at=%s)" % (left, site, at)
     model.eval()
-    y1, g1 = beh()
+    try:
+        y1, g1 = beh()
+    except RuntimeError as e:
+        return True, "a plain forward + gradient on the model raises after the call: %s" % str(e)[:150]
     if not torch.equal(y0, y1) or not torch.equal(g0, g1):
         return True, "model outputs / gradients changed after the call"
     if any(not torch.equal(a, b.detach()) for a, b in zip(p0, model.parameters())):
@@ -155,6 +202,8 @@ def worker(cfg):
     stats = core.Stats()
     out = {"violations": [], "samples": []}
     A, L, B, entry = cfg["A"], cfg["L"], cfg["B"], cfg["entry"]
+    if cfg.get("warn_as_error"):
+        torch_s.any = lambda x, *a, **k: True          # |delta| > warning_threshold = -1 holds for every value
 
     def body(ctx):
         faults = Faults(ctx, cfg["K"])
@@ -174,14 +223,24 @@ def worker(cfg):
                 faults.site("forward")
                 if cfg.get("bn"):
                     X = self.bn(X)
+                if cfg.get("lazy_cache"):
+                    # a tensor built on first use and kept by the model (positional weights, per-length caches, lazy modules)
+                    if getattr(self, "_pos", None) is None:
+                        self._pos = torch_s.ones(1, A, L)
+                    X = X * self._pos
                 return self.inner(X)
         net = Net()
+        fresh = Net() if cfg.get("history_ops") else None
         if cfg.get("bn"):
             net.train(bool(core.Bool("starts_in_training_mode")))
         params0 = [id(p) for p in net.parameters()]
         pvals0 = [p.a.copy() for p in net.parameters()]
         bufs0 = [b.a.copy() for b in net.buffers()]
-        beh0 = _behaviour(inner, A, L)
+        faults.paused = True
+        beh0 = _behaviour(net if cfg.get("lazy_cache") else inner, A, L)
+        faults.paused = False
+        if cfg.get("lazy_cache"):
+            net._pos = None
         xc = C.sym_chars(ctx, "x", (B, L), A)
         X = C.onehot_from_chars(xc, A, dtype="float32")
         ctx.state["bhook_fault"] = lambda mod: faults.site("bhook")
@@ -195,14 +254,27 @@ def worker(cfg):
             target = 99 if bool(bt) else 0
         hist = cfg.get("history", 1)
         outcome = []
+        results = []
+        extra_kw = {}
+        real_warn = dls.warnings.warn
+        if cfg.get("warn_as_error"):
+            # the user promotes warnings to errors (python -W error): warnings.warn is then one more place that can raise
+            def warn(msg, cat=UserWarning, *a, **k):
+                faults.site("warn")
+            dls.warnings = type("W", (), {"warn": staticmethod(lambda msg, cat=UserWarning, *a, **k: _warn(faults, msg, cat))})
+            extra_kw["warning_threshold"] = -1.0            # the convergence warning is issued in every batch
         for step in range(hist):
             try:
                 if entry == "deep_lift_shap":
                     refs = refgen
                     if cfg.get("tensor_refs"):
                         refs = refgen(X, n=2)
-                    dls.deep_lift_shap(net, X, references=refs, n_shuffles=2, batch_size=cfg.get("batch_size", 2), target=target, device="cpu",
-                                       random_state=0, hypothetical=cfg.get("hypothetical", False), raw_outputs=cfg.get("raw", False))
+                    kw_step = dict(extra_kw)
+                    if cfg.get("history_ops") and step == 0:
+                        act_cls = [type(m_) for m_ in inner._modules.values() if type(m_).__name__ in nn.ACT_NAMES][0]
+                        kw_step["additional_nonlinear_ops"] = {act_cls: (lambda mod, gi, go: gi)}
+                    results.append(dls.deep_lift_shap(net, X, references=refs, n_shuffles=2, batch_size=cfg.get("batch_size", 2), target=(target if not (cfg.get("history_ops") and step > 0) else 0), device="cpu",
+                                       random_state=0, hypothetical=cfg.get("hypothetical", False), raw_outputs=cfg.get("raw", False), **kw_step))
                 elif entry == "predict":
                     pred.predict(net, X, batch_size=cfg.get("batch_size", 2), device="cpu")
                 elif entry == "marginalize_dls":
@@ -214,6 +286,14 @@ def worker(cfg):
                 if isinstance(e, core.Inconclusive):
                     raise
                 outcome.append("raised:%s" % type(e).__name__)
+                results.append(None)
+                expected = isinstance(e, (InjectedFault, PromotedWarning)) or (cfg.get("bad_target") and target == 99 and isinstance(e, IndexError))
+                if not expected:
+                    # nothing was injected into this call: it must not raise
+                    out["violations"].append(C.violation("unexpected-raise", "%s raised %s: %s although nothing failed in its environment" % (entry, type(e).__name__, e),
+                                                         dict(cfg, at=0, site=None, entry="deep_lift_shap" if entry != "predict" else "predict"), replay))
+                    return "raised"
+        dls.warnings = __import__("warnings")
         # ---- post-state
         left = net.n_hooks()
         mdl = ctx.model() if ctx.check() == z3.sat else None
@@ -234,11 +314,25 @@ def worker(cfg):
         if any(not (b.a.shape == q.shape and all(bool(x_ == y_) for x_, y_ in zip(b.a.flat, q.flat))) for b, q in zip(net.buffers(), bufs0)):
             ok = False
             out["violations"].append(C.violation("buffers-changed", "buffers (running statistics) of the model were modified by %s" % entry, dict(rp, entry=entry, bn=True), replay))
+        if cfg.get("history_ops") and left == 0 and results and results[-1] is not None:
+            # the last (plain) call on the shared model against the same call on a fresh copy
+            faults.paused = True
+            ref = dls.deep_lift_shap(fresh, X, references=(refgen if not cfg.get("tensor_refs") else refgen(X, n=2)), n_shuffles=2, batch_size=cfg.get("batch_size", 2), target=0,
+                                     device="cpu", random_state=0, hypothetical=cfg.get("hypothetical", False), raw_outputs=cfg.get("raw", False))
+            same = ref.shape == results[-1].shape and ctx.prove(s_and(*[a_ == b_ for a_, b_ in zip(ref.a.flat, results[-1].a.flat)]), "shared model == fresh copy") is None
+            if not same:
+                ok = False
+                out["violations"].append(C.violation("history-differs-from-fresh-copy", "a call on the shared model gives a different result than the same call on a fresh copy (after an earlier call %s)" % outcome[:-1],
+                                                     dict(rp, entry="deep_lift_shap", history_ops=True, at=_nth_of_kind(faults)), replay))
         if left == 0:
-            beh1 = _behaviour(inner, A, L)
+            faults.paused = True
+            try:
+                beh1 = _behaviour(net if cfg.get("lazy_cache") else inner, A, L)
+            except RuntimeError as e:
+                beh1 = "raised %s" % e
             if beh1 != beh0:
                 ok = False
-                out["violations"].append(C.violation("behaviour-changed", "plain forward / gradient of the model differs after %s" % entry, dict(rp, entry="deep_lift_shap"), replay))
+                out["violations"].append(C.violation("behaviour-changed", "plain forward / gradient of the model differs after %s%s" % (entry, (" (%s)" % beh1[:120]) if isinstance(beh1, str) else ""), dict(rp, entry="deep_lift_shap" if entry != "predict" else "predict"), replay))
         if ok:
             ctx.stats.discharged += 1
         if len(out["samples"]) < 3:
@@ -260,6 +354,9 @@ def configs(tier):
           dict(entry="predict", A=2, L=3, B=3, K=4, batch_size=2), dict(entry="deep_lift_shap", A=2, L=2, B=1, K=8, batch_size=1, history=2, hypothetical=True),
           dict(entry="marginalize_dls", A=2, L=3, B=1, K=8), dict(entry="deep_lift_shap", A=2, L=3, B=2, K=10, batch_size=2, shared_act=True),
           dict(entry="predict", A=2, L=3, B=3, K=4, batch_size=2, bn=True), dict(entry="deep_lift_shap", A=2, L=3, B=1, K=6, batch_size=2, bn=True)]
+    cf += [dict(entry="deep_lift_shap", A=2, L=3, B=2, K=12, batch_size=2, warn_as_error=True),
+           dict(entry="deep_lift_shap", A=2, L=2, B=1, K=8, batch_size=1, history=2, history_ops=True, bad_target=True),
+           dict(entry="predict", A=2, L=3, B=2, K=3, batch_size=2, lazy_cache=True)]
     if not q:
         cf += [dict(entry="deep_lift_shap", A=2, L=3, B=3, K=24, batch_size=2, arch="conv"), dict(entry="deep_lift_shap", A=2, L=3, B=2, K=14, batch_size=4, raw=True),
                dict(entry="deep_lift_shap", A=3, L=3, B=2, K=16, batch_size=1, history=2)]
